@@ -1,531 +1,3 @@
-/-
-C04 — Field values survive encoding and decoding unchanged (value leg: `DataType.Bytes` / `DataType.GoValue`).
-
-Model: `Dblib/Model/Value.lean` (`bytes`, `goValue`, `roundTrip t v l = GoValue(Bytes(v, l))`) over the
-regenerated tables `Dblib/Gen/Types.lean`, calendar `Dblib/Model/AseTime.lean`.  Lemmas:
-`Lemmas/ValueBytes.lean` (little endian, two's complement, big-endian magnitude), `Lemmas/ValueArms.lean`
-(arm equations, all `rfl`), `Lemmas/ValueCal.lean` + `ValueFliegel.lean` (calendar), `Lemmas/ValueTemporal.lean`
-(closed forms of the temporal / money arms).
-
-Every theorem is for the whole value domain of the type (all integers of the width, all bit patterns, every
-`Int` decimal, every day 0001-01-01 … 9999-12-31 × every nanosecond of the day, all byte strings): proofs are
-by induction on byte lists and by linear integer arithmetic (`omega`), nothing is sampled.
-
-RESULT (code after the repairs c404295 floorDays, 20c1efa UNITEXT as UTF-16LE, 8cf068f XML, 7a20ae8 length checks).
-Everything the property demands is proved at full strength: integers, floats, bit, money, decimal/numeric, binary
-(incl. XML) and character strings, DATE (any time of day, the day comes back), DATETIME for every day 0001 … 9999
-(exact on ticks, within one tick for any time — also before 1900), SHORTDATE, TIME, BIGTIME, BIGDATETIME, UNITEXT for
-all Unicode scalar values (strings that do not end in U+0000: `GoValue` deliberately trims trailing NULs), NULL for
-every type of the domain.  Nothing is partial.
--/
-import Dblib.Model.Value
-import Dblib.Lemmas.ValueBytes
-import Dblib.Lemmas.ValueArms
-import Dblib.Lemmas.ValueFliegel
-import Dblib.Lemmas.ValueTemporal
-import Dblib.Lemmas.ValueText
-
-namespace Dblib.Props.C04
-open Dblib Dblib.Value Dblib.AseTime Dblib.Gen
-open Dblib.Lemmas.ValueBytes Dblib.Lemmas.ValueArms Dblib.Lemmas.ValueCal Dblib.Lemmas.ValueTemporal
-open Dblib.Lemmas.ValueText
-
-/-! ## helpers -/
-
-theorem readAs_leEncode (w v : Nat) (mk : Nat → Val) : readAs w (leEncode w v) mk = .ok (mk (v % 256 ^ w)) := by
-  simp only [readAs, readLE_leEncode]
-
-theorem roundTrip_ok (t : Nat) (v : Val) (l : Int) (bs : Bytes) (h : bytes t v l = .ok bs) :
-    roundTrip t v l = .dec (goValue t bs) := by
-  simp only [roundTrip, h]
-
-theorem enc_generic (t : Nat) (v : Val) (w n : Nat) (hv : v ≠ .null) (hw : binWrite v = some (leEncode w n))
-    (hs : byteSize t = -1 ∨ byteSize t = (w : Int)) :
-    (if v = .null then BOut.ok [] else genericBytes t v) = .ok (leEncode w n) := by
-  rw [if_neg hv]; exact genericBytes_ok _ _ _ hw (by rw [leEncode_length]; exact hs)
-
-theorem dec_INT1 (n : Nat) : goValue Types.INT1 (leEncode 1 n) = .ok (.u8 (n % 256 ^ 1)) := by
-  simp [goValue_INT1, leEncode_length, readAs_leEncode]
-theorem dec_INT2 (n : Nat) : goValue Types.INT2 (leEncode 2 n) = .ok (.i16 (toSigned 2 (n % 256 ^ 2))) := by
-  simp [goValue_INT2, leEncode_length, readAs_leEncode]
-theorem dec_INT4 (n : Nat) : goValue Types.INT4 (leEncode 4 n) = .ok (.i32 (toSigned 4 (n % 256 ^ 4))) := by
-  simp [goValue_INT4, leEncode_length, readAs_leEncode]
-theorem dec_INT8 (n : Nat) : goValue Types.INT8 (leEncode 8 n) = .ok (.i64 (toSigned 8 (n % 256 ^ 8))) := by
-  simp [goValue_INT8, leEncode_length, readAs_leEncode]
-theorem dec_UINT2 (n : Nat) : goValue Types.UINT2 (leEncode 2 n) = .ok (.u16 (n % 256 ^ 2)) := by
-  simp [goValue_UINT2, leEncode_length, readAs_leEncode]
-theorem dec_UINT4 (n : Nat) : goValue Types.UINT4 (leEncode 4 n) = .ok (.u32 (n % 256 ^ 4)) := by
-  simp [goValue_UINT4, leEncode_length, readAs_leEncode]
-theorem dec_UINT8 (n : Nat) : goValue Types.UINT8 (leEncode 8 n) = .ok (.u64 (n % 256 ^ 8)) := by
-  simp [goValue_UINT8, leEncode_length, readAs_leEncode]
-theorem dec_FLT4 (n : Nat) : goValue Types.FLT4 (leEncode 4 n) = .ok (.f32 (n % 256 ^ 4)) := by
-  simp [goValue_FLT4, leEncode_length, readAs_leEncode]
-theorem dec_FLT8 (n : Nat) : goValue Types.FLT8 (leEncode 8 n) = .ok (.f64 (n % 256 ^ 8)) := by
-  simp [goValue_FLT8, leEncode_length, readAs_leEncode]
-theorem dec_INTN_1 (n : Nat) : goValue Types.INTN (leEncode 1 n) = .ok (.u8 (n % 256 ^ 1)) := by
-  simp [goValue_INTN, goValueBase_INT1, leEncode_length, readAs_leEncode]
-theorem dec_INTN_2 (n : Nat) : goValue Types.INTN (leEncode 2 n) = .ok (.i16 (toSigned 2 (n % 256 ^ 2))) := by
-  simp [goValue_INTN, goValueBase_INT2, leEncode_length, readAs_leEncode]
-theorem dec_INTN_4 (n : Nat) : goValue Types.INTN (leEncode 4 n) = .ok (.i32 (toSigned 4 (n % 256 ^ 4))) := by
-  simp [goValue_INTN, goValueBase_INT4, leEncode_length, readAs_leEncode]
-theorem dec_INTN_8 (n : Nat) : goValue Types.INTN (leEncode 8 n) = .ok (.i64 (toSigned 8 (n % 256 ^ 8))) := by
-  simp [goValue_INTN, goValueBase_INT8, leEncode_length, readAs_leEncode]
-theorem dec_UINTN_1 (n : Nat) : goValue Types.UINTN (leEncode 1 n) = .ok (.u8 (n % 256 ^ 1)) := by
-  simp [goValue_UINTN, goValueBase_INT1, leEncode_length, readAs_leEncode]
-theorem dec_UINTN_2 (n : Nat) : goValue Types.UINTN (leEncode 2 n) = .ok (.u16 (n % 256 ^ 2)) := by
-  simp [goValue_UINTN, goValueBase_UINT2, leEncode_length, readAs_leEncode]
-theorem dec_UINTN_4 (n : Nat) : goValue Types.UINTN (leEncode 4 n) = .ok (.u32 (n % 256 ^ 4)) := by
-  simp [goValue_UINTN, goValueBase_UINT4, leEncode_length, readAs_leEncode]
-theorem dec_UINTN_8 (n : Nat) : goValue Types.UINTN (leEncode 8 n) = .ok (.u64 (n % 256 ^ 8)) := by
-  simp [goValue_UINTN, goValueBase_UINT8, leEncode_length, readAs_leEncode]
-theorem dec_FLTN_4 (n : Nat) : goValue Types.FLTN (leEncode 4 n) = .ok (.f32 (n % 256 ^ 4)) := by
-  simp [goValue_FLTN, goValueBase_FLT4, leEncode_length, readAs_leEncode]
-theorem dec_FLTN_8 (n : Nat) : goValue Types.FLTN (leEncode 8 n) = .ok (.f64 (n % 256 ^ 8)) := by
-  simp [goValue_FLTN, goValueBase_FLT8, leEncode_length, readAs_leEncode]
-
-/-! ## integers, floats, bit -/
-
-/-- the integer data types with the values of the Go types they carry, each within the range of its Go type -/
-inductive IntVal : Nat → Val → Prop
-  | int1 (n : Nat) : n < 256 → IntVal Types.INT1 (.u8 n)
-  | int2 (n : Int) : -32768 ≤ n ∧ n ≤ 32767 → IntVal Types.INT2 (.i16 n)
-  | int4 (n : Int) : -2147483648 ≤ n ∧ n ≤ 2147483647 → IntVal Types.INT4 (.i32 n)
-  | int8 (n : Int) : -9223372036854775808 ≤ n ∧ n ≤ 9223372036854775807 → IntVal Types.INT8 (.i64 n)
-  | uint2 (n : Nat) : n < 65536 → IntVal Types.UINT2 (.u16 n)
-  | uint4 (n : Nat) : n < 4294967296 → IntVal Types.UINT4 (.u32 n)
-  | uint8 (n : Nat) : n < 18446744073709551616 → IntVal Types.UINT8 (.u64 n)
-  | intn1 (n : Nat) : n < 256 → IntVal Types.INTN (.u8 n)
-  | intn2 (n : Int) : -32768 ≤ n ∧ n ≤ 32767 → IntVal Types.INTN (.i16 n)
-  | intn4 (n : Int) : -2147483648 ≤ n ∧ n ≤ 2147483647 → IntVal Types.INTN (.i32 n)
-  | intn8 (n : Int) : -9223372036854775808 ≤ n ∧ n ≤ 9223372036854775807 → IntVal Types.INTN (.i64 n)
-  | uintn1 (n : Nat) : n < 256 → IntVal Types.UINTN (.u8 n)
-  | uintn2 (n : Nat) : n < 65536 → IntVal Types.UINTN (.u16 n)
-  | uintn4 (n : Nat) : n < 4294967296 → IntVal Types.UINTN (.u32 n)
-  | uintn8 (n : Nat) : n < 18446744073709551616 → IntVal Types.UINTN (.u64 n)
-
-/-- **C04, integers.**  Every value of every integer width (signed and unsigned, fixed and nullable type)
-survives `GoValue(Bytes(v))` unchanged — little-endian two's complement, from `leDecode (leEncode w x) = x % 256^w`. -/
-theorem c04_int_rt (t : Nat) (v : Val) (l : Int) (h : IntVal t v) : roundTrip t v l = .dec (.ok v) := by
-  cases h with
-  | int1 n h =>
-    rw [roundTrip, bytes_INT1, enc_generic _ _ 1 n (by simp) rfl (Or.inr rfl)]
-    simp only [dec_INT1]
-    rw [Nat.mod_eq_of_lt (by omega)]
-  | int2 n h =>
-    rw [roundTrip, bytes_INT2, enc_generic _ _ 2 _ (by simp) rfl (Or.inr rfl)]
-    simp only [dec_INT2, toSigned2_toU n h]
-  | int4 n h =>
-    rw [roundTrip, bytes_INT4, enc_generic _ _ 4 _ (by simp) rfl (Or.inr rfl)]
-    simp only [dec_INT4, toSigned4_toU n h]
-  | int8 n h =>
-    rw [roundTrip, bytes_INT8, enc_generic _ _ 8 _ (by simp) rfl (Or.inr rfl)]
-    simp only [dec_INT8, toSigned8_toU n h]
-  | uint2 n h =>
-    rw [roundTrip, bytes_UINT2, enc_generic _ _ 2 n (by simp) rfl (Or.inr rfl)]
-    simp only [dec_UINT2]
-    rw [Nat.mod_eq_of_lt (by omega)]
-  | uint4 n h =>
-    rw [roundTrip, bytes_UINT4, enc_generic _ _ 4 n (by simp) rfl (Or.inr rfl)]
-    simp only [dec_UINT4]
-    rw [Nat.mod_eq_of_lt (by omega)]
-  | uint8 n h =>
-    rw [roundTrip, bytes_UINT8, enc_generic _ _ 8 n (by simp) rfl (Or.inr rfl)]
-    simp only [dec_UINT8]
-    rw [Nat.mod_eq_of_lt (by omega)]
-  | intn1 n h =>
-    rw [roundTrip, bytes_INTN, enc_generic _ _ 1 n (by simp) rfl (Or.inl rfl)]
-    simp only [dec_INTN_1]
-    rw [Nat.mod_eq_of_lt (by omega)]
-  | intn2 n h =>
-    rw [roundTrip, bytes_INTN, enc_generic _ _ 2 _ (by simp) rfl (Or.inl rfl)]
-    simp only [dec_INTN_2, toSigned2_toU n h]
-  | intn4 n h =>
-    rw [roundTrip, bytes_INTN, enc_generic _ _ 4 _ (by simp) rfl (Or.inl rfl)]
-    simp only [dec_INTN_4, toSigned4_toU n h]
-  | intn8 n h =>
-    rw [roundTrip, bytes_INTN, enc_generic _ _ 8 _ (by simp) rfl (Or.inl rfl)]
-    simp only [dec_INTN_8, toSigned8_toU n h]
-  | uintn1 n h =>
-    rw [roundTrip, bytes_UINTN, enc_generic _ _ 1 n (by simp) rfl (Or.inl rfl)]
-    simp only [dec_UINTN_1]
-    rw [Nat.mod_eq_of_lt (by omega)]
-  | uintn2 n h =>
-    rw [roundTrip, bytes_UINTN, enc_generic _ _ 2 n (by simp) rfl (Or.inl rfl)]
-    simp only [dec_UINTN_2]
-    rw [Nat.mod_eq_of_lt (by omega)]
-  | uintn4 n h =>
-    rw [roundTrip, bytes_UINTN, enc_generic _ _ 4 n (by simp) rfl (Or.inl rfl)]
-    simp only [dec_UINTN_4]
-    rw [Nat.mod_eq_of_lt (by omega)]
-  | uintn8 n h =>
-    rw [roundTrip, bytes_UINTN, enc_generic _ _ 8 n (by simp) rfl (Or.inl rfl)]
-    simp only [dec_UINTN_8]
-    rw [Nat.mod_eq_of_lt (by omega)]
-
-/-- float values as IEEE bit patterns (all of them: NaN payloads, ±0, ±Inf, denormals) -/
-inductive FloatVal : Nat → Val → Prop
-  | flt4 (b : Nat) : b < 4294967296 → FloatVal Types.FLT4 (.f32 b)
-  | flt8 (b : Nat) : b < 18446744073709551616 → FloatVal Types.FLT8 (.f64 b)
-  | fltn4 (b : Nat) : b < 4294967296 → FloatVal Types.FLTN (.f32 b)
-  | fltn8 (b : Nat) : b < 18446744073709551616 → FloatVal Types.FLTN (.f64 b)
-
-/-- **C04, floats**: every bit pattern survives unchanged. -/
-theorem c04_float_rt (t : Nat) (v : Val) (l : Int) (h : FloatVal t v) : roundTrip t v l = .dec (.ok v) := by
-  cases h with
-  | flt4 n h =>
-    rw [roundTrip, bytes_FLT4, enc_generic _ _ 4 n (by simp) rfl (Or.inr rfl)]
-    simp only [dec_FLT4]
-    rw [Nat.mod_eq_of_lt (by omega)]
-  | flt8 n h =>
-    rw [roundTrip, bytes_FLT8, enc_generic _ _ 8 n (by simp) rfl (Or.inr rfl)]
-    simp only [dec_FLT8]
-    rw [Nat.mod_eq_of_lt (by omega)]
-  | fltn4 n h =>
-    rw [roundTrip, bytes_FLTN, enc_generic _ _ 4 n (by simp) rfl (Or.inl rfl)]
-    simp only [dec_FLTN_4]
-    rw [Nat.mod_eq_of_lt (by omega)]
-  | fltn8 n h =>
-    rw [roundTrip, bytes_FLTN, enc_generic _ _ 8 n (by simp) rfl (Or.inl rfl)]
-    simp only [dec_FLTN_8]
-    rw [Nat.mod_eq_of_lt (by omega)]
-
-example : FloatVal Types.FLTN (.f32 0x7fc00001) := .fltn4 _ (by decide)   -- a NaN with payload
-example : IntVal Types.INTN (.i64 (-9223372036854775808)) := .intn8 _ (by decide)
-
-/-- **C04, bit** -/
-theorem c04_bit_rt (b : Bool) (l : Int) : roundTrip Types.BIT (.bool b) l = .dec (.ok (.bool b)) := by
-  rw [roundTrip, bytes_BIT, if_neg (by simp), genericBytes_ok _ _ [if b then 1 else 0] rfl (Or.inr rfl)]
-  cases b <;> rfl
-
-/-! ## binary and character strings -/
-
-/-- the binary family (`[]byte`) -/
-def IsBinaryType (t : Nat) : Prop :=
-  t = Types.BINARY ∨ t = Types.VARBINARY ∨ t = Types.LONGBINARY ∨ t = Types.IMAGE ∨ t = Types.XML
-/-- the character family (`string`, any bytes) except UNITEXT -/
-def IsCharType (t : Nat) : Prop :=
-  t = Types.CHAR ∨ t = Types.VARCHAR ∨ t = Types.LONGCHAR ∨ t = Types.TEXT
-
-/-- **C04, binary / character**: every non-empty byte string (of any length; a Go string need not be UTF-8)
-survives unchanged.  (The empty string encodes to zero length, which is NULL.) -/
-theorem c04_bytes_str_rt (t : Nat) (b : Bytes) (l : Int) (hb : b ≠ []) :
-    (IsBinaryType t → roundTrip t (.bytes b) l = .dec (.ok (.bytes b))) ∧
-    (IsCharType t → roundTrip t (.str b) l = .dec (.ok (.str b))) := by
-  have hl : b.length ≠ 0 := by
-    intro h; exact hb (List.length_eq_zero_iff.1 h)
-  constructor
-  · rintro (h | h | h | h | h) <;> subst h
-    · rw [roundTrip, bytes_BINARY, if_neg (by simp), genericBytes_ok _ _ b rfl (Or.inl rfl)]
-      simp only [goValue_BINARY, if_neg hl]
-    · rw [roundTrip, bytes_VARBINARY, if_neg (by simp), genericBytes_ok _ _ b rfl (Or.inl rfl)]
-      simp only [goValue_VARBINARY, if_neg hl]
-    · rw [roundTrip, bytes_LONGBINARY, if_neg (by simp), genericBytes_ok _ _ b rfl (Or.inl rfl)]
-      simp only [goValue_LONGBINARY, if_neg hl]
-    · rw [roundTrip, bytes_IMAGE, if_neg (by simp), genericBytes_ok _ _ b rfl (Or.inl rfl)]
-      simp only [goValue_IMAGE, if_neg hl]
-    · rw [roundTrip, bytes_XML, if_neg (by simp), genericBytes_ok _ _ b rfl (Or.inl rfl)]
-      simp only [goValue_XML, if_neg hl]
-  · rintro (h | h | h | h) <;> subst h
-    · rw [roundTrip, bytes_CHAR, if_neg (by simp), genericBytes_ok _ _ b rfl (Or.inl rfl)]
-      simp only [goValue_CHAR, if_neg hl]
-    · rw [roundTrip, bytes_VARCHAR, if_neg (by simp), genericBytes_ok _ _ b rfl (Or.inl rfl)]
-      simp only [goValue_VARCHAR, if_neg hl]
-    · rw [roundTrip, bytes_LONGCHAR, if_neg (by simp), genericBytes_ok _ _ b rfl (Or.inl rfl)]
-      simp only [goValue_LONGCHAR, if_neg hl]
-    · rw [roundTrip, bytes_TEXT, if_neg (by simp), genericBytes_ok _ _ b rfl (Or.inl rfl)]
-      simp only [goValue_TEXT, if_neg hl]
-
-example : IsCharType Types.VARCHAR ∧ ([0xff, 0x00] : Bytes) ≠ [] := ⟨Or.inr (Or.inl rfl), by decide⟩
-
-/-- **C04, XML** (binary data since 8cf068f) -/
-theorem c04_xml_rt (b : Bytes) (l : Int) (hb : b ≠ []) : roundTrip Types.XML (.bytes b) l = .dec (.ok (.bytes b)) :=
-  (c04_bytes_str_rt Types.XML b l hb).1 (Or.inr (Or.inr (Or.inr (Or.inr rfl))))
-
-/-! ## money -/
-
-/-- **C04, money (8 bytes)**: every count of 1/10000 units in the `int64` range survives MONEY / MONEYN(8)
-(high word then low word); precision and scale come back as the money constants. -/
-theorem c04_money_rt (i : Int) (p s : Nat) (h : -9223372036854775808 ≤ i ∧ i ≤ 9223372036854775807) :
-    roundTrip Types.MONEY (.dec i p s) 8 = .dec (.ok (.dec i Types.aseMoneyPrecision Types.aseMoneyScale)) ∧
-    roundTrip Types.MONEYN (.dec i p s) 8 = .dec (.ok (.dec i Types.aseMoneyPrecision Types.aseMoneyScale)) := by
-  have hw := wrap64_id i (by omega)
-  have key : wrap64 (((toU 32 (i / 4294967296) % 4294967296 : Nat) : Int) * 4294967296 +
-      ((toU 32 i % 4294967296 : Nat) : Int)) = i := by
-    simp only [wrap64, toU, Nat.reducePow]; omega
-  have hlen : (leEncode 4 (toU 32 (i / 4294967296)) ++ leEncode 4 (toU 32 i)).length = 8 := by
-    simp [leEncode_length]
-  constructor
-  · rw [roundTrip_ok _ _ _ _ (by rw [bytes_MONEY, enc_money8, hw]), goValue_MONEY, hlen, dec_money8, key]; rfl
-  · rw [roundTrip_ok _ _ _ _ (by rw [bytes_MONEYN, enc_money8, hw]), goValue_MONEYN, dec_money8, key]
-
-/-- **C04, money (4 bytes)**: the `int32` range through SHORTMONEY / MONEYN(4). -/
-theorem c04_shortmoney_rt (i : Int) (p s : Nat) (h : -2147483648 ≤ i ∧ i ≤ 2147483647) :
-    roundTrip Types.SHORTMONEY (.dec i p s) 4
-      = .dec (.ok (.dec i Types.aseShortMoneyPrecision Types.aseShortMoneyScale)) ∧
-    roundTrip Types.MONEYN (.dec i p s) 4
-      = .dec (.ok (.dec i Types.aseShortMoneyPrecision Types.aseShortMoneyScale)) := by
-  have hw := wrap64_id i (by omega)
-  have key := toI32_toU i h
-  constructor
-  · rw [roundTrip_ok _ _ _ _ (by rw [bytes_SHORTMONEY, enc_money4, hw]), goValue_SHORTMONEY, leEncode_length,
-      dec_money4, key]; rfl
-  · rw [roundTrip_ok _ _ _ _ (by rw [bytes_MONEYN, enc_money4, hw]), goValue_MONEYN, dec_money4, key]
-
-example : (-9223372036854775808 : Int) ≤ -1 ∧ (-1 : Int) ≤ 9223372036854775807 := by decide
-
-/-! ## decimal / numeric -/
-
-/-- **C04, decimal / numeric**: every integer (any size, both signs) survives as the unscaled value: sign byte
-plus minimal big-endian magnitude.  Precision and scale are not part of the value bytes (they travel in the
-format); `GoValue` answers the defaults. -/
-theorem c04_decimal_rt (i : Int) (p s : Nat) (l : Int) :
-    roundTrip Types.DECN (.dec i p s) l
-      = .dec (.ok (.dec i Types.aseDecimalDefaultPrecision Types.aseDecimalDefaultScale)) ∧
-    roundTrip Types.NUMN (.dec i p s) l
-      = .dec (.ok (.dec i Types.aseDecimalDefaultPrecision Types.aseDecimalDefaultScale)) := by
-  have key : decArm ((if i < 0 then 1 else 0) :: natBytesBE i.natAbs)
-      = .ok (.dec i Types.aseDecimalDefaultPrecision Types.aseDecimalDefaultScale) := by
-    simp only [decArm, beNat_natBytesBE]
-    by_cases h : i < 0
-    · simp only [h, if_true]
-      have : ((1 : UInt8) == 1) = true := by decide
-      simp only [this, if_true, VOut.ok.injEq, Val.dec.injEq, and_true]; omega
-    · simp only [h, if_false]
-      have : ((0 : UInt8) == 1) = false := by decide
-      simp only [this, Bool.false_eq_true, if_false, VOut.ok.injEq, Val.dec.injEq, and_true]; omega
-  constructor
-  · rw [roundTrip_ok _ _ _ _ (bytes_DECN i p s l), goValue_DECN, key]
-  · rw [roundTrip_ok _ _ _ _ (bytes_NUMN i p s l), goValue_NUMN, key]
-
-
-/-! ## temporal types -/
-
-/-- the property's calendar domain: 0001-01-01 … 9999-12-31 (day 0 … 3 652 058), any nanosecond of the day -/
-def InRange (t : Time) : Prop := 0 ≤ t.day ∧ t.day < 3652059 ∧ t.ns < nsPerDay
-
-instance (t : Time) : Decidable (InRange t) := by unfold InRange; exact inferInstance
-
-/-- the time of day `GoValue` produces for tick `k` of 1/300 s: `k/300 s` truncated to the millisecond -/
-def tickNs (k : Nat) : Nat := 10 * k / 3 * 1000000
-
-/-- the tick `Bytes` chooses for a time of day: the nearest tick of the microsecond value, ties up -/
-def nearestTick (ns : Nat) : Nat := (3 * (ns / 1000) + 5000) / 10000
-
-/-- absolute nanoseconds since 0001-01-01 -/
-def absNs (t : Time) : Int := t.day * 86400000000000 + t.ns
-
-theorem year_ok (t : Time) (h : InRange t) : -4000 ≤ t.year := by
-  have := year_pos_of_day_nonneg t.day h.1; simp only [Time.year]; omega
-
-theorem toU32_nat (n : Nat) (h : n < 4294967296) : toU 32 (n : Int) = n := by
-  simp only [toU, Nat.reducePow]; omega
-
-theorem time_eta (t : Time) (d : Int) (n : Nat) (h1 : t.day = d) (h2 : t.ns = n) : (⟨d, n⟩ : Time) = t := by
-  cases t; simp only at h1 h2; subst h1; subst h2; rfl
-
-/-- **C04, date**: every time value of every civil day 0001-01-01 … 9999-12-31 comes back from DATE / DATEN as
-midnight of the same day, whatever its time of day — also before 1900 (`floorDays`). -/
-theorem c04_date_day (t : Time) (h : InRange t) :
-    roundTrip Types.DATE (.time t) 4 = .dec (.ok (.time ⟨t.day, 0⟩)) ∧
-    roundTrip Types.DATEN (.time t) 4 = .dec (.ok (.time ⟨t.day, 0⟩)) := by
-  obtain ⟨h0, h1, h2⟩ := h
-  have hy := year_ok t ⟨h0, h1, h2⟩
-  have hdec := dec_date (t.day - 693595) (by omega)
-  rw [show 693595 + (t.day - 693595) = t.day by omega] at hdec
-  constructor
-  · rw [roundTrip_ok _ _ _ _ (by rw [bytes_DATE, enc_date t h2 hy]), goValue_DATE, leEncode_length, hdec]; rfl
-  · rw [roundTrip_ok _ _ _ _ (by rw [bytes_DATEN, enc_date t h2 hy]), goValue_DATEN, hdec]
-
-/-- pure dates survive unchanged -/
-theorem c04_date_rt (t : Time) (h : InRange t) (hz : t.ns = 0) :
-    roundTrip Types.DATE (.time t) 4 = .dec (.ok (.time t)) ∧
-    roundTrip Types.DATEN (.time t) 4 = .dec (.ok (.time t)) := by
-  have := c04_date_day t h
-  rwa [time_eta t t.day 0 rfl hz] at this
-
-example : InRange ⟨3652058, 0⟩ := by decide   -- 9999-12-31
-example : InRange ⟨693594, 43200000000000⟩ := by decide   -- 1899-12-31 12:00, the former counterexample
-
-theorem tick_cast (n : Nat) : (3 * ((n : Nat) : Int) + 5000) / 10000 = (((3 * n + 5000) / 10000 : Nat) : Int) := by
-  omega
-
-theorem nearestTick_le (ns : Nat) (h : ns < nsPerDay) : nearestTick ns ≤ 25920000 := by
-  simp only [nearestTick, nsPerDay] at *; omega
-
-/-- a tick is its own nearest tick: `(⌊10k/3⌋·3 + 5)/10 = k` -/
-theorem nearestTick_tickNs (k : Nat) : nearestTick (tickNs k) = k := by
-  simp only [nearestTick, tickNs]; omega
-
-theorem tickNs_lt (k : Nat) (h : k < 25920000) : tickNs k < nsPerDay := by
-  simp only [tickNs, nsPerDay]; omega
-
-theorem absNs_add (d : Int) (x : Nat) : absNs (Time.add ⟨d, 0⟩ (x : Int)) = d * 86400000000000 + x := by
-  simp only [absNs, Time.add, nsPerDay]; omega
-
-/-- DATETIME / DATETIMEN(8) of any time value of the years 1 … 9999: the day and the nearest tick come back -/
-theorem c04_datetime_rt (t : Time) (h : InRange t) :
-    roundTrip Types.DATETIME (.time t) 8
-      = .dec (.ok (.time (Time.add ⟨t.day, 0⟩ ((tickNs (nearestTick t.ns) : Nat) : Int)))) ∧
-    roundTrip Types.DATETIMEN (.time t) 8
-      = .dec (.ok (.time (Time.add ⟨t.day, 0⟩ ((tickNs (nearestTick t.ns) : Nat) : Int)))) := by
-  obtain ⟨h0, h1, h2⟩ := h
-  have hy := year_ok t ⟨h0, h1, h2⟩
-  have hk := nearestTick_le t.ns h2
-  have henc := enc_datetime t h2 hy
-  rw [tick_cast, toU32_nat _ (by simp only [nearestTick] at hk; omega)] at henc
-  replace henc : dtBytes t 8 = .ok (leEncode 4 (toU 32 (t.day - 693595)) ++ leEncode 4 (nearestTick t.ns)) := henc
-  have hdec := dec_datetime (t.day - 693595) (nearestTick t.ns) (by omega) (by omega)
-  rw [show 693595 + (t.day - 693595) = t.day by omega] at hdec
-  have hlen : (leEncode 4 (toU 32 (t.day - 693595)) ++ leEncode 4 (nearestTick t.ns)).length = 8 := by
-    simp [leEncode_length]
-  constructor
-  · rw [roundTrip_ok _ _ _ _ (by rw [bytes_DATETIME, henc]), goValue_DATETIME, hlen, hdec]; rfl
-  · rw [roundTrip_ok _ _ _ _ (by rw [bytes_DATETIMEN, henc]), goValue_DATETIMEN, hdec]; rfl
-
-/-- **C04, datetime on ticks**: every day 0001-01-01 … 9999-12-31 × every 1/300 s tick of the day survives exactly. -/
-theorem c04_datetime_tick (d : Int) (k : Nat) (hd : 0 ≤ d ∧ d < 3652059) (hk : k < 25920000) :
-    roundTrip Types.DATETIME (.time ⟨d, tickNs k⟩) 8 = .dec (.ok (.time ⟨d, tickNs k⟩)) ∧
-    roundTrip Types.DATETIMEN (.time ⟨d, tickNs k⟩) 8 = .dec (.ok (.time ⟨d, tickNs k⟩)) := by
-  have hlt := tickNs_lt k hk
-  have := c04_datetime_rt ⟨d, tickNs k⟩ ⟨hd.1, hd.2, hlt⟩
-  simp only [nearestTick_tickNs] at this
-  rwa [add_small d 0 _ (by omega) (by simp only [nsPerDay] at hlt; omega),
-    show ((0 : Nat) : Int) + ((tickNs k : Nat) : Int) = ((tickNs k : Nat) : Int) by omega, Int.toNat_natCast] at this
-
-/-- **C04, datetime within a tick**: for any time of day of any day 0001 … 9999 the decoded instant differs from the
-original by less than one tick of 1/300 s (|Δ|·300 < 1 s). -/
-theorem c04_datetime_tolerance (t : Time) (h : InRange t) :
-    ∃ r : Time, roundTrip Types.DATETIME (.time t) 8 = .dec (.ok (.time r)) ∧
-      roundTrip Types.DATETIMEN (.time t) 8 = .dec (.ok (.time r)) ∧
-      (absNs r - absNs t).natAbs * 300 < 1000000000 := by
-  obtain ⟨p1, p2⟩ := c04_datetime_rt t h
-  refine ⟨_, p1, p2, ?_⟩
-  rw [absNs_add]
-  have h2 := h.2.2
-  simp only [absNs, tickNs, nearestTick, nsPerDay] at *
-  omega
-
-example : InRange ⟨693594, 43200000000000⟩ ∧ (43200000000000 : Nat) = tickNs 12960000 := by decide
-
-/-- **C04, smalldatetime**: every day 1900-01-01 … 2079-06-06 with any time of day comes back truncated to the
-minute (SHORTDATE and DATETIMEN(4)); exactly, if the time is a whole minute. -/
-theorem c04_shortdate_rt (t : Time) (hd : 693595 ≤ t.day ∧ t.day < 693595 + 65536) (h2 : t.ns < nsPerDay) :
-    roundTrip Types.SHORTDATE (.time t) 4 = .dec (.ok (.time ⟨t.day, t.ns / 60000000000 * 60000000000⟩)) ∧
-    roundTrip Types.DATETIMEN (.time t) 4 = .dec (.ok (.time ⟨t.day, t.ns / 60000000000 * 60000000000⟩)) := by
-  have hy := year_ok t ⟨by omega, by omega, h2⟩
-  have hm : t.ns / 60000000000 < 1440 := by simp only [nsPerDay] at h2; omega
-  have henc := enc_shortdate t h2 hy
-  have e1 : toU 16 (t.day - 693595) = (t.day - 693595).toNat := by simp only [toU, Nat.reducePow]; omega
-  have e2 : toU 16 ((t.ns / 60000000000 : Nat) : Int) = t.ns / 60000000000 := by
-    simp only [toU, Nat.reducePow]; omega
-  rw [e1, e2] at henc
-  have hdec := dec_shortdate (t.day - 693595).toNat (t.ns / 60000000000) (by omega) (by omega)
-  rw [show 693595 + (((t.day - 693595).toNat : Nat) : Int) = t.day by omega,
-    add_small t.day 0 _ (by omega) (by omega)] at hdec
-  have e3 : (((0 : Nat) : Int) + ((t.ns / 60000000000 : Nat) : Int) * 60000000000).toNat
-      = t.ns / 60000000000 * 60000000000 := by omega
-  rw [e3] at hdec
-  have hlen : (leEncode 2 (t.day - 693595).toNat ++ leEncode 2 (t.ns / 60000000000)).length = 4 := by
-    simp [leEncode_length]
-  constructor
-  · rw [roundTrip_ok _ _ _ _ (by rw [bytes_SHORTDATE, henc]), goValue_SHORTDATE, hlen, hdec]; rfl
-  · rw [roundTrip_ok _ _ _ _ (by rw [bytes_DATETIMEN, henc]), goValue_DATETIMEN, hdec]
-
-example : (693595 : Int) ≤ 759130 ∧ (759130 : Int) < 693595 + 65536 := by decide   -- 2079-06-06
-
-/-- TIME / TIMEN of any time value: the date is not transmitted, the time of day comes back as its nearest tick -/
-theorem c04_time_rt_general (t : Time) (h2 : t.ns < nsPerDay) :
-    roundTrip Types.TIME (.time t) 4 = .dec (.ok (.time
-      ⟨((tickNs (nearestTick t.ns) / nsPerDay : Nat) : Int), tickNs (nearestTick t.ns) % nsPerDay⟩)) ∧
-    roundTrip Types.TIMEN (.time t) 4 = .dec (.ok (.time
-      ⟨((tickNs (nearestTick t.ns) / nsPerDay : Nat) : Int), tickNs (nearestTick t.ns) % nsPerDay⟩)) := by
-  have hk := nearestTick_le t.ns h2
-  have henc := enc_time t h2
-  rw [tick_cast, toU32_nat _ (by simp only [nearestTick] at hk; omega)] at henc
-  replace henc : timeBytes t 4 = .ok (leEncode 4 (nearestTick t.ns)) := henc
-  have hdec := dec_time (nearestTick t.ns) (by omega)
-  constructor
-  · rw [roundTrip_ok _ _ _ _ (by rw [bytes_TIME, henc]), goValue_TIME, leEncode_length, hdec]; rfl
-  · rw [roundTrip_ok _ _ _ _ (by rw [bytes_TIMEN, henc]), goValue_TIMEN, hdec]; rfl
-
-/-- **C04, time**: every tick 0 … 25 919 999 of a day survives TIME / TIMEN exactly. -/
-theorem c04_time_rt (k : Nat) (hk : k < 25920000) :
-    roundTrip Types.TIME (.time ⟨0, tickNs k⟩) 4 = .dec (.ok (.time ⟨0, tickNs k⟩)) ∧
-    roundTrip Types.TIMEN (.time ⟨0, tickNs k⟩) 4 = .dec (.ok (.time ⟨0, tickNs k⟩)) := by
-  have hlt := tickNs_lt k hk
-  have := c04_time_rt_general ⟨0, tickNs k⟩ hlt
-  simp only [nearestTick_tickNs] at this
-  rwa [Nat.div_eq_of_lt hlt, Nat.mod_eq_of_lt hlt] at this
-
-/-- **C04, bigtime**: the time of day comes back exactly to the microsecond (the date is not transmitted). -/
-theorem c04_bigtime_rt (t : Time) (h2 : t.ns < nsPerDay) :
-    roundTrip Types.BIGTIMEN (.time t) 8 = .dec (.ok (.time ⟨0, t.ns / 1000 * 1000⟩)) := by
-  rw [roundTrip_ok _ _ _ _ (enc_bigtime t h2), goValue_BIGTIMEN, dec_bigtime _ (us_lt t h2)]
-
-/-- **C04, bigdatetime**: every day 0001-01-01 … 9999-12-31 × every microsecond survives exactly. -/
-theorem c04_bigdatetime_rt (t : Time) (h : InRange t) :
-    roundTrip Types.BIGDATETIMEN (.time t) 8 = .dec (.ok (.time ⟨t.day, t.ns / 1000 * 1000⟩)) := by
-  obtain ⟨h0, h1, h2⟩ := h
-  rw [roundTrip_ok _ _ _ _ (enc_bigdatetime t h2 h0 (by omega)),
-    dec_bigdatetime t.day (t.ns / 1000) (by omega) (us_lt t h2)]
-
-/-- microsecond values come back unchanged -/
-theorem c04_bigdatetime_rt_exact (t : Time) (h : InRange t) (hus : t.ns % 1000 = 0) :
-    roundTrip Types.BIGDATETIMEN (.time t) 8 = .dec (.ok (.time t)) := by
-  rw [c04_bigdatetime_rt t h, time_eta t t.day (t.ns / 1000 * 1000) rfl (by omega)]
-
-/-! ## unitext -/
-
-/-- **C04, unitext**: every non-empty string of Unicode scalar values (all planes; surrogate pairs on the wire) that
-does not end in U+0000 survives UNITEXT unchanged.  (`GoValue` deliberately trims trailing NULs because the
-server pads; such strings come back without them.) -/
-theorem c04_unitext_rt (cps : List Nat) (l : Int) (hne : cps ≠ []) (h : ∀ c ∈ cps, IsScalar c)
-    (hlast : cps.getLast? ≠ some 0) :
-    roundTrip Types.UNITEXT (.str (utf8EncAll cps)) l = .dec (.ok (.str (utf8EncAll cps))) := by
-  have hlen : 0 < cps.length := List.length_pos_iff.2 hne
-  have hul : 0 < (utf16EncAll cps).length := by
-    have := congrArg List.length (utf16Dec_encAll cps h)
-    cases hu : utf16EncAll cps with
-    | nil => rw [hu] at this; simp [utf16Dec] at this; omega
-    | cons a r => simp
-  rw [roundTrip_ok _ _ _ _ (bytes_UNITEXT _ l), utf8Dec_encAll cps h, unitextWrite_zeros, goValue_UNITEXT,
-    unitsLE_length, if_neg (by omega), if_neg (by omega), unitsOfLE_unitsLE _ (utf16EncAll_lt cps),
-    utf16Dec_encAll cps h, trimRightNul_id _ (utf8EncAll_last cps h hlast)]
-
--- hypotheses satisfiable: "日😀" (U+65E5 U+1F600)
-example : ([0x65E5, 0x1F600] : List Nat) ≠ [] ∧ (∀ c ∈ ([0x65E5, 0x1F600] : List Nat), IsScalar c) ∧
-    ([0x65E5, 0x1F600] : List Nat).getLast? ≠ some 0 := by decide
-
-/-! ## NULL -/
-
-/-- **C04, NULL encodes to zero length** — every data type, every length. -/
-theorem c04_null_enc (t : Nat) (l : Int) : bytes t .null l = .ok [] := by
-  simp [bytes]
-
-/-- **C04, zero length decodes to NULL** for every data type of the property's domain (non-nil `ReflectTypes`
-entry, not BLOB — read off the regenerated table) that can be NULL (no fixed `ByteSize`), without exception.
-For the decimal types NULL is the library's NULL decimal `&Decimal{i: nil}`. -/
-theorem c04_null : ∀ t ∈ Types.reflectNonNil, t ≠ Types.BLOB → byteSize t = -1 →
-    (goValue t [] = .ok .null ∨ goValue t [] = .ok .decnull) := by
-  decide +kernel
-
-/-- the fixed-size types have no NULL: zero length is an error -/
-theorem c04_null_fixed : ∀ t ∈ Types.reflectNonNil, byteSize t ≠ -1 → goValue t [] = .err := by
-  decide +kernel
-
-/-! ## the domain follows the source -/
-
-/-- the data types treated by the theorems of this file (round trip proved, or violation exhibited) -/
-def coveredTypes : List Nat :=
-  [Types.INT1, Types.INT2, Types.INT4, Types.INT8, Types.INTN, Types.UINT2, Types.UINT4, Types.UINT8, Types.UINTN,
-   Types.FLT4, Types.FLT8, Types.FLTN, Types.BIT, Types.MONEY, Types.SHORTMONEY, Types.MONEYN, Types.DECN, Types.NUMN,
-   Types.DATE, Types.DATEN, Types.TIME, Types.TIMEN, Types.DATETIME, Types.SHORTDATE, Types.DATETIMEN,
-   Types.BIGDATETIMEN, Types.BIGTIMEN, Types.BINARY, Types.VARBINARY, Types.LONGBINARY, Types.IMAGE, Types.XML,
-   Types.CHAR, Types.VARCHAR, Types.LONGCHAR, Types.TEXT, Types.UNITEXT]
-
-/-- every data type of the property's domain — non-nil entry in the regenerated `ReflectTypes` table, not BLOB —
-is treated above; a type added to the Go table makes this fail until it is covered. -/
-theorem c04_domain_covered : ∀ t ∈ Types.reflectNonNil, t ≠ Types.BLOB → t ∈ coveredTypes := by
-  decide +kernel
-
-end Dblib.Props.C04
+-- C04: value level (Props/C04/Values.lean: every data type's round trip through Bytes / GoValue) and
+-- package level (Props/C04/Package.lean: the same values inside a PARAMS package with their format)
+import Dblib.Props.C04.Values
